@@ -100,7 +100,26 @@ func TestC18Grid(t *testing.T) {
 		if f := checkC18(g, o); f != nil {
 			h.ReportGridFail(t, "C18", f, mustJSON(g))
 		}
-		h.AddExtra("C18", "giant_concurrent_workloads", 1)
+		// ... and a hammer: eight goroutines, 50 short quotients each by the same two 33 000-word divisors (the
+		// scratch copy of the divisor is giant, the work per call is not): thousands of chances for two calls to ask
+		// for giant scratch at the same moment. Schedules are explored by repetition only.
+		hm := C18Case{Procs: 16, Pool: []h.Spec{
+			{F: "f", D: h.WordsToDigits(append([]uint64{4999999999999999999}, repeatWord(1357913579135791357, 4)...)), E: 3, P: 5 * h.DW, M: 0},
+			{F: "f", D: h.WordsToDigits(append([]uint64{7000000000000000001}, repeatWord(2468024680246802468, 4)...)), E: -2, P: 5 * h.DW, M: 0},
+			{F: "f", D: h.WordsToDigits(append([]uint64{1234567890123456789}, repeatWord(8765432109876543210, 32999)...)), E: 5, P: 33000 * h.DW, M: 0},
+			{F: "f", D: h.WordsToDigits(append([]uint64{8876543210987654321}, repeatWord(3456789012345678901, 32999)...)), E: 0, P: 33000 * h.DW, M: 0},
+		}}
+		for i := 0; i < 8; i++ {
+			var prog []ConcOp
+			for j := 0; j < 50; j++ {
+				prog = append(prog, ConcOp{K: "quo", A: []int{(i + j) % 2, 2 + (i+j/2)%2, 0}, P: uint(19 + 19*((i+j)%2)), M: uint8((i + j) % 6)})
+			}
+			hm.Progs = append(hm.Progs, prog)
+		}
+		if f := checkC18(hm, o); f != nil {
+			h.ReportGridFail(t, "C18", f, mustJSON(hm))
+		}
+		h.AddExtra("C18", "giant_concurrent_workloads", 2)
 	}
 }
 
